@@ -111,7 +111,7 @@ PROPS = {
     "C13": {
         "level": "proof",
         "lean_modules": ["SqlizeModel.Props.C13"],
-        "theorems": ["Sqlize.C13.default_order", "Sqlize.C13.ignore_same_statements", "Sqlize.C13.ignore_no_position", "Sqlize.C13.ignore_appends", "Sqlize.C13.printed_ignore", "Sqlize.walkCols_up_ignore_refines"],
+        "theorems": ["Sqlize.C13.default_order", "Sqlize.C13.ignore_same_statements", "Sqlize.C13.ignore_no_position", "Sqlize.C13.ignore_appends", "Sqlize.C13.printed_ignore", "Sqlize.walkCols_up_ignore_refines", "Sqlize.C13.columns_from_scripts", "Sqlize.columns_end_to_end_ignore"],
         "suites": [{"name": "pair"}, {"name": "history"}],
         "corr_points": ["load-old", "load-new", "state-old", "state-new", "Diff", "state-diff", "StringUp", "StringDown"],
         "rule": PAIR_RULE,
